@@ -24,6 +24,7 @@ Call ==
     LET e == Ev IN
     /\ Check("C05:kaiser_alpha_is_the_configured_polynomial", Within(e.qalpha, AlphaQ(e.psll), 16))
     /\ Check("C05:kaiser_shape_is_alpha_times_pi", Within(e.qbeta, MulQ20(e.qalpha, QPI), 16))
+    /\ Check("C12:window_built_for_the_requested_side_lobe_level", Within(e.qbeta, MulQ20(AlphaQ(e.psll), QPI), 32))
     /\ Check("C05:kaiser_built_with_L_plus_one_points", e.M = e.L + 1)
     /\ Check("C05:last_point_dropped", e.wlen = e.L)
     /\ Check("C05:window_is_dft_even", e.sym <= 4)
